@@ -15,12 +15,16 @@ def run(ctx: Ctx) -> int:
                   "node classes of CPython's ast present in the corpus": cov["node_classes_present"], "absent": cov["node_classes_absent"],
                   "optional clauses present": cov["optional_clauses_present"],
                   "inputs": "x in [-3, 4], y in [-1000, 1000], results of opaque calls unbounded ints"}
+    ctx.functions_encoded.append("stage 2: the checked CFG of every accepted program (checker/expr_checker.py, stmt_checker.py: what the checker keeps of each construct) interpreted by lib/e5.py")
     ctx.outside_claim = ["await / async for / async with directly in the function body (CPython itself refuses to compile them outside an async def)",
                          "constructs inside comptime functions, struct definitions and type annotations", "combinations of two unsupported constructs"]
     ctx.assumptions = ["a construct 'takes effect as in Python' iff CPython's execution of the source and the walk over the real CFG agree on result and event trace for all inputs within the bound",
                        "rejection with any GuppyError counts as a compile error"]
+    # stage 2 (E5): every accepted program also through the checked CFGs of the real front end
+    jobs += e4_check.jobs_for(ctx, "c32", total, batch=6, timeout=ctx.pick(300, 900), total=total, harness="harness/E5_equiv.py", fn="h_equiv5")
     ctx.crosshair(jobs)
     v = e4_check.collect_verdicts(ctx, crash_is_note=True)
+    ctx.extra["e5"] = e4_check.collect_e5(ctx)
     table = {p["src"].split("(")[0].split()[-1]: (p["verdict"] + (":" + p["why"] if p["why"] else "")) for p in v["programs"]}
     ctx.samples.extend({"program": p["src"], "verdict": p["verdict"], "why": p["why"]} for p in v["programs"][:4])
     return ctx.finish(
@@ -28,6 +32,6 @@ def run(ctx: Ctx) -> int:
         rule="program = one syntax-kind program; the real check() decides accepted/rejected; every accepted program is compared (CPython on the source || walk over the real CFG) on all paths for symbolic inputs",
         explanation="every Python statement/expression kind and optional clause is put through the real front end; whatever it accepts must behave as CPython executes it, for all inputs within the bounds",
         trusted_base=["CPython 3.12", "crosshair-tool 0.0.110", "z3 5.1", "import shim", "lib/e4.py block walker", "lib/e4_syntax.py corpus"],
-        extra_cov={"programs": max(v["accepted"] + v["rejected"], 1), "disagreements_checked": len(ctx.violations), "accepted": v["accepted"], "rejected": v["rejected"],
+        extra_cov={"stage2_checked_cfg": ctx.extra.get("e5"), "programs": max(v["accepted"] + v["rejected"], 1), "disagreements_checked": len(ctx.violations), "accepted": v["accepted"], "rejected": v["rejected"],
                    "verdict_table": table, "distinct_nontrivial": v["accepted"] + v["rejected"], "exhaustive": False},
     )
